@@ -2,7 +2,7 @@
    __run_flatcheck) as a state machine driven by events (C18).  ln f is the exact dyadic 2^-k, so g is
    a rational vector.  The two decisions the code takes on computed floats — the bin of the proposal's
    kappa and the Metropolis test u < exp(g_old - g_new) — enter as event fields with side conditions. *)
-From Coq Require Import QArith Qabs ZArith List Bool String Arith.
+From Coq Require Import Qround QArith Qabs ZArith List Bool String Arith.
 From LC Require Import Core.Residue Core.Lists Core.QTools Spec.Delta Model.Delta Model.DeltaCheck Model.PatternCheck.
 Import ListNotations.
 
@@ -19,6 +19,19 @@ Definition in_range (c : wlcfg) (i : nat) : bool := (rmin c <=? i)%nat && (i <=?
 (* bin centres: midpoints of an equal partition of [0,1] *)
 Definition centre (c : wlcfg) (i : nat) : Q := (Z.of_nat (2 * i + 1) # Pos.of_nat (2 * nb_actual c)).
 Definition centres (c : wlcfg) : list Q := map (centre c) (seq 0 (nb_actual c)).
+
+(* WangLandauMachine.__init__ (NORMAL run): the geometry derived from the requested range [bmin, bmax] cut into
+   nb bins: binWidth = (bmax - bmin) / nb, nbins_actual = round(1 / binWidth), relevant_min = argmin over the
+   centres of |centre - (bmin + binWidth / 2)| (numpy argmin: the first minimum) *)
+Definition geom_of (nb : nat) (bmin bmax : Q) : nat * nat :=
+  let w := (bmax - bmin) / inject_Z (Z.of_nat nb) in
+  let na := Z.to_nat (Qfloor (1 / w + (1 # 2))) in
+  let target := bmin + w / 2 in
+  let dist (i : nat) := Qabs ((Z.of_nat (2 * i + 1) # Pos.of_nat (2 * na)) - target) in
+  (na, fold_left (fun best i => if Qle_bool (dist best) (dist i) then best else i) (seq 1 (na - 1)) 0%nat).
+
+Definition geom_ok (c : wlcfg) (bmin bmax : Q) : bool :=
+  let '(na, r) := geom_of (nb_target c) bmin bmax in Nat.eqb (nb_actual c) na && Nat.eqb (rmin c) r.
 
 Record wlst := {
   cur : list aa;        (* current sequence *)
@@ -134,10 +147,11 @@ Fixpoint replay (c : wlcfg) (s : wlst) (hprev : list Z) (rs : list rec) : bool :
       closeQs gall (gv s) && Nat.eqb (nstep s) 0 && replay c s hprev rs'
   end.
 
-(* (config, input sequence, start sequence = its delta-max permutant, start bin, records,
+(* (config, requested range, input sequence, start sequence = its delta-max permutant, start bin, records,
     returned array = (centres, g)) *)
-Definition check_c18 (x : wlcfg * string * string * nat * list rec * (list Q * list Q)) : bool :=
-  let '(c, input, start, idx0, rs, (cts, gfinal)) := x in
+Definition check_c18 (x : wlcfg * (Q * Q) * string * string * nat * list rec * (list Q * list Q)) : bool :=
+  let '(c, (bmin, bmax), input, start, idx0, rs, (cts, gfinal)) := x in
+  geom_ok c bmin bmax &&
   same_multiset (sq start) (sq input) &&
   existsb (nearest_ok c idx0) (kappa_candidates (pat (sq start))) &&
   closeQs cts (centres c) &&
